@@ -705,3 +705,176 @@ def rule_W2(ctx):
         elif nm.startswith("Ok"):
             r.neg_control(nm, not fnd)
     return r
+
+
+# ---------------------------------------------------------------------------------------------------------------------
+# D6  frame-cell codec: BasicGarnishData::push_frame encodes (current frame, current register) into one of the Frame* cells and
+#     pop_frame decodes the cell and restores both.  The two tables must be inverse of each other, variant by variant.
+def _opt_pat(p):
+    """('some', lid) | ('none',) | ('any',) for a pattern over Option<_>."""
+    if p.get("k") == "Expr" and isinstance(p.get("e"), dict):
+        p = p["e"]
+    k = p.get("k")
+    if k == "TupleStruct" and last(p.get("def") or "") == "Some":
+        inner = (p.get("pats") or [{}])[0]
+        return ("some", inner.get("lid")) if inner.get("k") == "Binding" else ("some", None)
+    if k == "Path" and last(p.get("def") or p.get("txt") or "") == "None":
+        return ("none",)
+    if k == "Binding" and not p.get("sub"):
+        return ("any", p.get("lid"))
+    return ("any", None)
+
+
+def frame_writer_table(f):
+    """variant -> {role: payload position}, plus findings about links dropped by the writer. roles are the accessor names of the scrutinee."""
+    for n in walk(f["hir"]):
+        if n.get("k") != "Match" or n.get("src") != "Normal" or n["scrut"].get("k") != "Tup":
+            continue
+        roles = []
+        for e in n["scrut"]["es"]:
+            e = peel(e)
+            roles.append(e.get("m") if e.get("k") == "MethodCall" else None)
+        if None in roles or len(roles) < 2:
+            continue
+        table, fnd = {}, []
+        for arm in n["arms"]:
+            pats = arm["pat"].get("pats") if arm["pat"].get("k") == "Tuple" else None
+            if not pats or len(pats) != len(roles):
+                fnd.append(("writer-arm-shape", loc(arm["pat"]), "arm at %s is not a tuple pattern over %s" % (loc(arm["pat"]), roles)))
+                continue
+            body = peel(arm["body"])
+            if body.get("k") == "Block" and body["b"].get("expr") and not body["b"]["stmts"]:
+                body = peel(body["b"]["expr"])
+            variant = last((body.get("f") or {}).get("def") or body.get("def") or "?") if body.get("k") in ("Call", "Path") else "?"
+            if body.get("k") not in ("Call", "Path"):
+                fnd.append(("writer-arm-shape", loc(arm["pat"]), "arm at %s does not construct a cell directly" % loc(arm["pat"])))
+                continue
+            args = body.get("args") or []
+            enc = {}
+            for role, p in zip(roles, pats):
+                kind = _opt_pat(p)
+                pos = None
+                if kind[0] in ("some", "any") and len(kind) > 1 and kind[1] is not None:
+                    for i, a in enumerate(args):
+                        if any(x.get("k") == "Path" and x.get("lid") == kind[1] for x in walk(a)):
+                            pos = i
+                if kind[0] != "none" and pos is None:
+                    fnd.append(("writer-drops:%s:%s" % (role, variant), loc(arm["pat"]), "push side: the arm at %s accepts a present %s but stores %s without it - the link is lost when the frame is popped" % (loc(arm["pat"]), role, variant)))
+                if pos is not None:
+                    enc[role] = pos
+            table.setdefault(variant, []).append((enc, loc(arm["pat"])))
+        return roles, table, fnd, n
+    return None, None, [], None
+
+
+def frame_reader_table(f, variants):
+    """variant -> {setter: payload position} from `let (a, b) = match cell {V(x, y) => (Some(*x), None), ...}; set_a(a); set_b(b)`."""
+    body = Body(f)
+    for st in walk(f["hir"]):
+        if st.get("k") != "Let" or st["pat"].get("k") != "Tuple" or not st.get("init"):
+            continue
+        m = peel(st["init"])
+        if m.get("k") != "Match":
+            continue
+        def pv(p):
+            if p.get("k") == "Expr" and isinstance(p.get("e"), dict):
+                p = p["e"]
+            return last(p.get("def") or "")
+        names = [pv(a["pat"]) for a in m["arms"]]
+        if not (set(names) & set(variants)):
+            continue
+        binds = [p.get("lid") if p.get("k") == "Binding" else None for p in st["pat"]["pats"]]
+        pos_role = {}
+        for c in walk(f["hir"]):
+            if c.get("k") == "MethodCall" and c.get("m", "").startswith("set_") and c.get("args"):
+                a = peel(c["args"][0])
+                if a.get("k") == "Path" and a.get("lid") in binds:
+                    pos_role[binds.index(a["lid"])] = c["m"]
+        table = {}
+        for arm in m["arms"]:
+            v = pv(arm["pat"])
+            if v not in variants:
+                continue
+            b = peel(arm["body"])
+            if b.get("k") != "Tup":
+                table[v] = None
+                continue
+            pl = {}
+            for i, p in enumerate(arm["pat"].get("pats") or []):
+                if p.get("k") == "Binding":
+                    pl[p["lid"]] = i
+            dec = {}
+            for i, e in enumerate(b["es"]):
+                role = pos_role.get(i)
+                src = [pl[x["lid"]] for x in walk(e) if x.get("k") == "Path" and x.get("lid") in pl]
+                if role and src:
+                    dec[role] = src[0]
+            table[v] = (dec, loc(arm["pat"]))
+        return pos_role, table, st
+    return None, None, None
+
+
+def frame_codec_findings(w, rd):
+    roles, wt, fnd, _m = frame_writer_table(w)
+    if wt is None:
+        return None, None, [("anchor", loc(w["hir"]), "no match over a tuple of accessors found in %s" % w["path"])]
+    pos_role, rt, _st = frame_reader_table(rd, set(wt))
+    if rt is None:
+        return wt, None, fnd + [("anchor", loc(rd["hir"]), "no `let (..) = match cell {..}` over the written variants found in %s" % rd["path"])]
+    setter_of = lambda role: "set_" + role
+    for v, encs in sorted(wt.items()):
+        if v not in rt:
+            fnd.append(("reader-missing:" + v, loc(rd["hir"]), "pop side has no arm for %s, which the push side writes" % v))
+            continue
+        if rt[v] is None:
+            fnd.append(("reader-shape:" + v, loc(rd["hir"]), "pop side arm for %s does not yield a tuple" % v))
+            continue
+        dec, where = rt[v]
+        for enc, wwhere in encs:
+            want = dict((setter_of(r), p) for r, p in enc.items())
+            if want != dec:
+                fnd.append(("codec-mismatch:" + v, where, "push side stores %s into %s (%s) but pop side restores %s (%s): a frame written in that state comes back as a different state" % (
+                    dict((r, "field %d" % p) for r, p in enc.items()), v, wwhere, dict((r, "field %d" % p) for r, p in dec.items()) or "nothing", where)))
+    # every presence combination of the roles must be written
+    combos = set()
+    for arm in _m["arms"]:
+        pats = arm["pat"].get("pats") if arm["pat"].get("k") == "Tuple" else None
+        if pats:
+            ks = [_opt_pat(p)[0] for p in pats]
+            import itertools
+            for c in itertools.product(*[(("some", "none") if k == "any" else (k,)) for k in ks]):
+                combos.add(c)
+    return wt, rt, fnd
+
+
+def rule_D6(ctx):
+    F = ctx.F
+    r = RuleResult("D6", "frame-cell codec: the Frame* cell BasicGarnishData::push_frame writes for each (current frame, current register) state is decoded by pop_frame into the same state")
+    ws = [f for f in F.fns.values() if f.get("name") == "push_frame" and "BasicGarnishData" in (f.get("impl_self") or "") and f["crate"] == "garnish_lang_simple_data"]
+    rs = [f for f in F.fns.values() if f.get("name") == "pop_frame" and "BasicGarnishData" in (f.get("impl_self") or "") and f["crate"] == "garnish_lang_simple_data"]
+    if not ws or not rs:
+        r.anchor_missing("BasicGarnishData::push_frame / pop_frame", "not found")
+        return r
+    wt, rt, fnd = frame_codec_findings(ws[0], rs[0])
+    n = 0
+    for v, encs in sorted((wt or {}).items()):
+        n += 1
+        r.examine((v,), True, {"variant": v, "written_with": [e for e, _w in encs], "restored_as": (rt or {}).get(v) and rt[v][0]})
+    for inst, where, msg in fnd:
+        if inst == "anchor":
+            r.anchor_missing(where, msg)
+        else:
+            r.finding(ws[0]["path"] if inst.startswith("writer") else rs[0]["path"], inst, where, msg)
+    r.floor("frame cell variants written by push_frame", n, 4)
+    for w in sorted(F.fns.values(), key=lambda f: f["path"]):
+        if "gfixture::d6::" in w["path"] and w["name"].startswith("push_"):
+            suffix = w["name"][5:]
+            rd = [g for g in F.fns.values() if "gfixture::d6::" in g["path"] and g["name"] == "pop_" + suffix]
+            if not rd:
+                continue
+            _a, _b, ff = frame_codec_findings(w, rd[0])
+            if suffix.startswith("ctl_"):
+                r.control(suffix, bool(ff))
+            elif suffix.startswith("ok_"):
+                r.neg_control(suffix, not ff)
+    return r
